@@ -35,6 +35,9 @@ enum Case {
     Pairs { suite: String, size: usize, layout: usize, seed: String },
     /// tiny field: EVERY blinder vector
     Tiny { q: u64, k: usize, pattern: Vec<i64> },
+    /// boundary blinder VALUES (digit-boundary scalars of the multiscalar routine) fed through the
+    /// scripted source on the real suites: valid batches accepted, invalid rejected
+    BoundaryBlinders { suite: String, seed: String },
 }
 
 impl Prop for C19 {
@@ -75,6 +78,9 @@ impl Prop for C19 {
                 }
             }
         }
+        for suite in REAL_SUITES {
+            out.push(serde_json::to_value(Case::BoundaryBlinders { suite: suite.to_string(), seed: format!("s{seed}") }).unwrap());
+        }
         for q in [7u64, 11, 13] {
             for k in 1..=tier.pick(3usize, 4usize) {
                 if (q as u64).pow(k as u32) > 30000 {
@@ -93,6 +99,7 @@ impl Prop for C19 {
         let c: Case = serde_json::from_value(case.clone()).expect("case");
         match &c {
             Case::Size { suite, .. } | Case::Pairs { suite, .. } => with_suite!(suite.as_str(), run_real, &c),
+            Case::BoundaryBlinders { suite, .. } => with_suite!(suite.as_str(), run_boundary, &c),
             Case::Tiny { q, .. } => match q {
                 7 => run_tiny::<7>(&c),
                 11 => run_tiny::<11>(&c),
@@ -358,5 +365,116 @@ fn run_tiny<const Q: u64>(c: &Case) -> Outcome {
         }
         o.class("tiny-invalid");
     }
+    o
+}
+
+
+/// bytes that make `Field::random` return exactly `v` under the scripted source (calibrated on the
+/// suite itself: little-endian padded to the draw size, or big-endian), None if neither works
+fn bytes_for_scalar<C: Suite>(v: &frost_core::Scalar<C>) -> Option<Vec<u8>> {
+    let enc = sc_bytes::<C>(v);
+    let one_enc = sc_bytes::<C>(&one::<C>());
+    let little = one_enc[0] == 1;
+    let mut probe = ScriptedRng::ctr("probe");
+    let _ = F::<C>::random(&mut probe);
+    if probe.calls.len() != 1 {
+        return None;
+    }
+    let draw = probe.calls[0].bytes.len();
+    let mut cands: Vec<Vec<u8>> = vec![];
+    let le: Vec<u8> = if little { enc.clone() } else { enc.iter().rev().copied().collect() };
+    let mut a = le.clone();
+    a.resize(draw.max(a.len()), 0);
+    a.truncate(draw);
+    cands.push(a.clone());
+    let mut b: Vec<u8> = le.iter().rev().copied().collect();
+    while b.len() < draw {
+        b.insert(0, 0);
+    }
+    cands.push(b);
+    for c in cands {
+        let mut rng = ScriptedRng::ctr("x").with_dev(0, Dev::Bytes(c.clone()));
+        if F::<C>::random(&mut rng) == *v && rng.calls.len() == 1 {
+            return Some(c);
+        }
+    }
+    None
+}
+
+fn boundary_scalars<C: Suite>() -> Vec<(String, frost_core::Scalar<C>)> {
+    let mut v: Vec<(String, frost_core::Scalar<C>)> = vec![];
+    for k in [0u64, 1, 2, 3, 7, 8, 9, 15, 16, 17, 31, 32, 33, 255, 256, 257] {
+        v.push((format!("{k}"), sc_u64::<C>(k)));
+    }
+    let bits = sc_bytes::<C>(&one::<C>()).len() as u32 * 8;
+    for k in [4u32, 5, 10, 59, 60, 63, 64, 65, 69, 70, 127, 128, 129, 191, 192, 193, 245, 249, 250, 251] {
+        if k + 4 < bits {
+            v.push((format!("2^{k}-1"), pow2::<C>(k) - one::<C>()));
+            v.push((format!("2^{k}"), pow2::<C>(k)));
+            v.push((format!("2^{k}+1"), pow2::<C>(k) + one::<C>()));
+            v.push((format!("2^{k}+2^{}-1", k - 3), pow2::<C>(k) + pow2::<C>(k - 3) - one::<C>()));
+        }
+    }
+    v.push(("q-1".into(), neg::<C>(one::<C>())));
+    v.push(("q-2".into(), neg::<C>(sc_u64::<C>(2))));
+    v.push(("q-16".into(), neg::<C>(sc_u64::<C>(16))));
+    v.push(("q-17".into(), neg::<C>(sc_u64::<C>(17))));
+    // bit patterns: 0x55.., 0xAA.., 0x0F.., 0xFF.. (reduced by construction through arithmetic)
+    for (name, byte) in [("0x55..", 0x55u64), ("0xaa..", 0xaa), ("0x0f..", 0x0f), ("0xff..", 0xff), ("0x80..", 0x80), ("0x11..", 0x11)] {
+        let mut acc = zero::<C>();
+        let b256 = sc_u64::<C>(256);
+        for _ in 0..(bits / 8 - 1) {
+            acc = acc * b256 + sc_u64::<C>(byte);
+        }
+        v.push((name.to_string(), acc));
+    }
+    // runs of ones crossing 64-bit limb boundaries
+    v.push(("2^70-2^58".into(), pow2::<C>(70) - pow2::<C>(58)));
+    v.push(("2^134-2^122".into(), pow2::<C>(134) - pow2::<C>(122)));
+    v.push(("2^198-2^186".into(), pow2::<C>(198) - pow2::<C>(186)));
+    v
+}
+
+fn run_boundary<C: Suite>(c: &Case) -> Outcome {
+    let mut o = Outcome::new();
+    let Case::BoundaryBlinders { seed, .. } = c else { unreachable!() };
+    let tag = format!("C19/{}", C::name());
+    let (entries, _) = batch::<C>(2, 0, seed);
+    let mk = |e: &[Entry<C>]| -> Option<Verifier<C>> {
+        let mut v = Verifier::<C>::new();
+        for x in e {
+            v.queue(Item::<C>::new(x.vk, x.sig, &x.msg).ok()?);
+        }
+        Some(v)
+    };
+    let mut bad = entries.clone();
+    bad[1].sig = Signature::<C>::new(*bad[1].sig.R(), *bad[1].sig.z() + one::<C>());
+    for (name, sc) in boundary_scalars::<C>() {
+        let Some(bytes) = bytes_for_scalar::<C>(&sc) else {
+            o.count("boundary_values_not_injectable", 1);
+            continue;
+        };
+        for pos in 0..2 {
+            for (valid, set) in [(true, &entries), (false, &bad)] {
+                let Some(v) = mk(set) else {
+                    o.machinery_error("items");
+                    return o;
+                };
+                let mut rng = ScriptedRng::ctr(format!("bb:{name}")).with_dev(pos, Dev::Bytes(bytes.clone()));
+                let got = v.verify(&mut rng).is_ok();
+                o.eval(true);
+                o.count("boundary_blinder_runs", 1);
+                // a zero blinder on the invalid item legitimately hides it (probability 2^-252 in reality)
+                let zero_on_bad = !valid && pos == 1 && sc == zero::<C>();
+                if got != valid && !zero_on_bad {
+                    o.fail(
+                        format!("{tag}/boundary-blinder/{}", if valid { "valid-batch-rejected" } else { "invalid-batch-accepted" }),
+                        format!("blinder value {name} at item {pos}: batch verification returned ok={got} for a batch that is {}", if valid { "valid" } else { "invalid" }),
+                    );
+                }
+            }
+        }
+    }
+    o.class("boundary-blinders");
     o
 }
